@@ -350,6 +350,13 @@ func runC13(c *hx.Ctx) *hx.Outcome {
 			}
 			if tolD == 0 {
 				mustStopAt = at
+			} else if t.S(5) == 0 {
+				// the device goes quiet and then fails: another read error while the
+				// handler is retrying.  It must stop there.
+				in.ThenFatal = true
+				fatalErr = true
+				mustStopAt = at
+				o.Fault("source:fatal-error-after-a-quiet-period")
 			}
 		case 2:
 			in.Timeout = t.S(2) == 1
